@@ -23,19 +23,25 @@
 (* Property C49 = invariants AtMostOnce, BatchOnce, NotesAfterResponse     *)
 (* (always) and ExactlyOnce (when everything has finished).                *)
 (*                                                                         *)
-(* CONSTANT AsCoded selects between the behaviour the property demands     *)
-(* (FALSE, used for all conformance checks) and two places where           *)
-(* handler.go does something else (TRUE; TLC then finds counterexamples to *)
-(* ExactlyOnce / AtMostOnce -- see NOTES.md, findings C49-F1 and C49-F2):  *)
-(*  F1  handleNonBatchCall's timer writes a timeout error object even when *)
-(*      the message is a notification;                                     *)
-(*  F2  in handleBatch the timer function first calls cancel() and only    *)
-(*      then locks the call buffer (respondWithError); the loop may see    *)
-(*      the cancelled context, leave, and write the partial batch first -- *)
-(*      the remaining calls are never answered.  With AsCoded = FALSE the  *)
-(*      timer cancels and responds in one atomic step.                     *)
-(* Fixed = TRUE (with AsCoded = TRUE, i.e. the real two-step timer) is the *)
-(* repaired code; TLC checks that it satisfies all invariants.             *)
+(* Variants (constants AsCoded, Fixed):                                    *)
+(*  AsCoded = FALSE          idealisation: the timeout cancels and         *)
+(*                           responds in one atomic step;                  *)
+(*  AsCoded /\ Fixed         handler.go as it is now: the timer function   *)
+(*                           first calls cancel() and then (separately)    *)
+(*                           respondWithError; the tail of handleBatch     *)
+(*                           calls respondWithError(timeout) instead of    *)
+(*                           write when the batch context is done; the     *)
+(*                           timer of a single NOTIFICATION writes nothing.*)
+(*                           TLC checks all invariants on it; it is the    *)
+(*                           oracle for the gated schedule replay and V.   *)
+(*  AsCoded /\ ~Fixed        handler.go before the fixes of findings       *)
+(*                           C49-F1 (timed-out single notification was     *)
+(*                           answered) and C49-F2 (loop noticed the        *)
+(*                           cancellation before the timer took the buffer *)
+(*                           lock and wrote the partial batch: remaining   *)
+(*                           calls never answered).  Kept because TLC's    *)
+(*                           counterexamples document the findings         *)
+(*                           (MCRPCAsCoded.cfg, NOTES.md).                 *)
 (***************************************************************************)
 EXTENDS Integers, Sequences, FiniteSets, TLC
 
